@@ -24,7 +24,7 @@ import (
 
 type c13Scn struct {
 	Kind string `json:"kind"` // inproc | tcp | ws
-	Init string `json:"init"` // clientfinish serverfinish serverfail clientclose serverclose
+	Init string `json:"init"` // clientfinish serverfinish serverfail clientclose serverclose crossfail
 	Cap  int    `json:"cap"`
 	ToCl int    `json:"to_cl"`
 	ToSv int    `json:"to_sv"`
@@ -305,7 +305,24 @@ func c13Run(scn *c13Scn) c13Obs {
 			o.Note = "dial: " + err.Error()
 			return o
 		}
-		cc := lime.NewClientChannel(t, scn.Cap)
+		var cc *lime.ClientChannel
+		var hold *c13HoldConn
+		if scn.Init == "crossfail" {
+			// pin the crossing: the write of the finishing envelope returns only once the client's receiver
+			// has processed the failed envelope that the server sent meanwhile (TCP only: the real TCP
+			// transport over a wrapped socket)
+			_ = t.Close()
+			raw, err := net.Dial("tcp", addr.String())
+			if err != nil {
+				o.Note = "dial: " + err.Error()
+				return o
+			}
+			hold = &c13HoldConn{Conn: raw, after: func() {
+				waitUntil(3*time.Second, func() bool { return cc.State() == lime.SessionStateFailed })
+			}}
+			t = lime.NewTCPTransportOverConn(hold, false, nil)
+		}
+		cc = lime.NewClientChannel(t, scn.Cap)
 		ses, err := cc.EstablishSession(ctx, lime.NoneCompressionSelector, lime.NoneEncryptionSelector,
 			lime.Identity{Name: "cli", Domain: "verif.test"}, lime.GuestAuthenticator, "i1")
 		if err != nil || ses.State != lime.SessionStateEstablished {
@@ -353,6 +370,16 @@ func c13Run(scn *c13Scn) c13Obs {
 		case "serverclose":
 			sendToServer()
 			closeServer()
+		case "crossfail":
+			_ = cc.SendMessage(ctx, msg("fail", "fail:0"))
+			fctx, fc := context.WithTimeout(ctx, 10*time.Second)
+			ses, err := cc.FinishSession(fctx)
+			fc()
+			if err != nil {
+				o.Note += "FinishSession: " + err.Error() + "; "
+			} else if ses.State != lime.SessionStateFailed {
+				o.Note += "FinishSession returned " + string(ses.State) + "; "
+			}
 		}
 		select {
 		case <-cc.RcvDone():
@@ -366,9 +393,17 @@ func c13Run(scn *c13Scn) c13Obs {
 		o.ClStreams = b2i(chanClosed(cc.MsgChan(), time.Second) && chanClosed(cc.NotChan(), time.Second) &&
 			chanClosed(cc.ReqCmdChan(), time.Second) && chanClosed(cc.RespCmdChan(), time.Second))
 		o.ClConn = b2i(t.Connected())
+		if hold != nil {
+			// the socket itself: a TCP transport that has read EOF reports itself disconnected whether or
+			// not it has released its connection
+			o.ClConn = b2i(atomic.LoadInt32(&hold.closed) == 0)
+		}
 		o.Delivered = int(atomic.LoadInt32(&delivered))
 		_ = cc.Close()
 		o.ClAfter = b2i(t.Connected())
+		if hold != nil {
+			o.ClAfter = b2i(atomic.LoadInt32(&hold.closed) == 0)
+		}
 	}
 	if scn.Init != "serverclose" {
 		closeServer()
@@ -380,6 +415,26 @@ func c13Run(scn *c13Scn) c13Obs {
 		o.Gor = 0
 	}
 	return o
+}
+
+// c13HoldConn delays the return of the write that carries a finishing session envelope.
+type c13HoldConn struct {
+	net.Conn
+	after  func()
+	closed int32
+}
+
+func (h *c13HoldConn) Close() error {
+	atomic.StoreInt32(&h.closed, 1)
+	return h.Conn.Close()
+}
+
+func (h *c13HoldConn) Write(b []byte) (int, error) {
+	n, err := h.Conn.Write(b)
+	if err == nil && strings.Contains(string(b), `"finishing"`) {
+		h.after()
+	}
+	return n, err
 }
 
 func c13Child(args []string) {
@@ -456,7 +511,7 @@ func coqOptBool(v int) string {
 
 func (c *c13Case) coq() string {
 	inits := map[string]string{"clientfinish": "IClientFinish", "serverfinish": "IServerFinish", "serverfail": "IServerFail",
-		"clientclose": "IClientClose", "serverclose": "IServerClose"}
+		"clientclose": "IClientClose", "serverclose": "IServerClose", "crossfail": "ICrossFail"}
 	del := coqfmt.None
 	if c.Obs.Delivered >= 0 {
 		del = coqfmt.Some(coqfmt.Nat(c.Obs.Delivered))
@@ -511,7 +566,11 @@ func runC13(env *Env) error {
 			c13Scn{Kind: k, Init: "serverfinish", Cap: 0, ToCl: 40, ToSv: 0, Slow: true},
 			c13Scn{Kind: k, Init: "serverfail", Cap: 1, ToCl: 40, ToSv: 20, Slow: true},
 			c13Scn{Kind: k, Init: "clientfinish", Cap: 0, ToCl: 0, ToSv: 0},
-			c13Scn{Kind: k, Init: "serverclose", Cap: 64, ToCl: 0, ToSv: 0})
+			c13Scn{Kind: k, Init: "serverclose", Cap: 64, ToCl: 0, ToSv: 0},
+			c13Scn{Kind: k, Init: "serverfinish", Cap: 1, ToCl: 5, ToSv: 0})
+	}
+	for _, cp := range []int{0, 1, 64} {
+		scns = append(scns, c13Scn{Kind: "tcp", Init: "crossfail", Cap: cp})
 	}
 	extra := env.Pick(0, 60)
 	for i := 0; i < extra; i++ {
